@@ -60,6 +60,7 @@ def build_mir(crate, log=print):
     key = tree_hash(srcs) + hashlib.sha256(flags.encode()).hexdigest()[:8]
     out = os.path.join(BUILD, 'mir', f'{crate}-{key}.mir')
     if os.path.exists(out) and os.path.getsize(out) > 1000:
+        os.utime(out)
         return out, key, 0.0, True
     lock = open(os.path.join(BUILD, 'mir', f'.lock-{crate}'), 'w')
     fcntl.flock(lock, fcntl.LOCK_EX)
@@ -83,7 +84,7 @@ def build_mir(crate, log=print):
         # keep only the two newest dumps per crate
         olds = sorted([f for f in os.listdir(os.path.join(BUILD, 'mir')) if f.startswith(crate + '-') and f.endswith('.mir')],
                       key=lambda f: os.path.getmtime(os.path.join(BUILD, 'mir', f)))
-        for f in olds[:-2]:
+        for f in olds[:-8]:
             os.remove(os.path.join(BUILD, 'mir', f))
         return out, key, time.time() - t, False
     finally:
@@ -295,7 +296,7 @@ class Ctx:
         fs = list(formulas)
         if ex is not None:
             fs = list(ex.invariants) + fs
-        v = self.solvers.check(fs)
+        v = self.solvers.check(fs, witness=(expect == 'sat'))
         if expect == 'sat':
             if v.status == 'sat':
                 self.witnesses += 1
@@ -414,10 +415,14 @@ class Ctx:
         self.log(f'[{self.pid}] obligations={n_ob} discharged={n_dis} inconclusive={n_inc} not_encoded={n_ne} witnesses={self.witnesses} '
                  f'vacuous={n_vac} violations={len(self.violations)} known={len(self.known)} mismatches={len(self.mismatches)} '
                  f'queries={self.solvers.queries} wall={time.time() - self.t0:.0f}s')
+        n_unrep = sum(1 for o in posts if o.status == 'unreplayed')
         if self.mismatches or n_vac:
             return 2
         if self.violations:
             return 1
+        if n_unrep:
+            self.log(f'UNCONFIRMED: {n_unrep} obligation(s) have a solver counterexample but no native replay recipe; not a pass (exit 2)')
+            return 2
         if n_ne:
             self.log(f'NOT-ENCODED: {n_ne} obligation(s) could not be encoded on this tree; the check cannot decide them (exit 2, not a pass)')
             return 2
